@@ -1704,5 +1704,69 @@ example : size [5, 2] 1 = size [2] 0 ∧
     (([{ c := 1, s := 0, e := 2 }] : List Iv).filter (fun iv => iv.c = 1)).map (fun iv => (iv.s, iv.e)) =
     (([{ c := 0, s := 0, e := 2 }] : List Iv).filter (fun iv => iv.c = 0)).map (fun iv => (iv.s, iv.e)) := by decide
 
+/-! ### `GlobalOffset.start_ends_from_intervals(interval, do_clip)` (round 6) -/
+
+/-- **C10.globalise_clip_own_chromosome** — whenever the globalisation of an integer entry succeeds (with or without the
+keyword `do_clip`), the global interval lies inside the global range of the entry's OWN chromosome: every position of it
+converts back to that chromosome, `to_local_interval` returns the entry with its stop cut at the chromosome size, and
+without `do_clip` nothing was cut. -/
+theorem globalise_clip_own_chromosome (sizes : List Nat) (clip : Bool) (iv : IvZ) (a b : Nat)
+    (h : globaliseZ sizes clip iv = some (a, b)) :
+    iv.c < sizes.length ∧ 0 ≤ iv.s ∧
+    a = offset sizes iv.c + iv.s.toNat ∧ b = offset sizes iv.c + min iv.e.toNat (size sizes iv.c) ∧
+    a ≤ b ∧ b ≤ offset sizes iv.c + size sizes iv.c ∧
+    (∀ g, a ≤ g → g < b → toLocal sizes g = (iv.c, g - offset sizes iv.c)) ∧
+    toLocalIv sizes (a, b) = some { c := iv.c, s := iv.s.toNat, e := min iv.e.toNat (size sizes iv.c) } ∧
+    (clip = false → b = offset sizes iv.c + iv.e.toNat) := by
+  unfold globaliseZ at h
+  split at h
+  · rename_i hc
+    obtain ⟨hc, h0, hs, hse, hcl⟩ := hc
+    simp only [Option.some.injEq, Prod.mk.injEq] at h
+    obtain ⟨ha, hb⟩ := h
+    have hloc : ∀ p, p < size sizes iv.c → toLocal sizes (offset sizes iv.c + p) = (iv.c, p) := by
+      intro p hp
+      obtain ⟨g, hg, _, hl⟩ := (local_global_bijection sizes).1 iv.c p hc hp
+      simp only [fromLocal, hc, hp, and_self, if_true, Option.some.injEq] at hg
+      rw [hg]; exact hl
+    have hsz : iv.s.toNat < size sizes iv.c := by omega
+    refine ⟨hc, h0, ha.symm, hb.symm, by omega, by omega, ?_, ?_, ?_⟩
+    · intro g h1 h2
+      have := hloc (g - offset sizes iv.c) (by omega)
+      have e : offset sizes iv.c + (g - offset sizes iv.c) = g := by omega
+      rw [e] at this; exact this
+    · have h1 := hloc iv.s.toNat hsz
+      rw [ha] at h1
+      have hci : chromIdx sizes a = iv.c := by
+        have := congrArg Prod.fst h1; simpa [toLocal] using this
+      unfold toLocalIv
+      simp only [hci]
+      have : b - offset sizes iv.c ≤ size sizes iv.c := by omega
+      rw [if_pos this]
+      congr 2 <;> omega
+    · intro hf
+      have : iv.e ≤ (size sizes iv.c : Int) := by
+        rcases hcl with h | h
+        · rw [hf] at h; cases h
+        · exact h
+      omega
+  · cases h
+
+/-- **C10.globalise_none_iff** — the globalisation refuses exactly: unknown chromosome, negative start, start at or beyond
+the chromosome size, stop before start, and (only without `do_clip`) a stop beyond the chromosome size. -/
+theorem globalise_none_iff (sizes : List Nat) (clip : Bool) (iv : IvZ) :
+    globaliseZ sizes clip iv = none ↔
+      ¬ (iv.c < sizes.length ∧ 0 ≤ iv.s ∧ iv.s < (size sizes iv.c : Int) ∧ iv.s ≤ iv.e ∧
+        (clip = true ∨ iv.e ≤ (size sizes iv.c : Int))) := by
+  unfold globaliseZ
+  split <;> simp_all
+
+/-- **C10.globalise_genome_end_unsound** — refutation of the deviating rule "clip against the end of the genome": an entry
+overhanging a chromosome that is not the last one covers positions of the NEXT chromosome; the code's rule stops at the
+boundary. -/
+theorem globalise_genome_end_unsound :
+    ∃ (sizes : List Nat) (iv : IvZ) (a b g : Nat), globaliseGenomeEndZ sizes iv = some (a, b) ∧
+      a ≤ g ∧ g < b ∧ (toLocal sizes g).1 ≠ iv.c ∧ globaliseZ sizes true iv = some (a, g) :=
+  ⟨[5, 5, 4], { c := 0, s := 3, e := 9 }, 3, 9, 5, by decide⟩
 
 end C10
